@@ -22,7 +22,13 @@ def fast_cache(f):
     def wrapper(*args, **kw):
         key = args + (kwd_marker,) + tuple(sorted(kw.items()))
         if key not in cache:
-            cache[key] = f(*args, **kw)
+            result = f(*args, **kw)
+            # The stored object is handed to every caller: make arrays
+            # read-only so that a caller cannot corrupt later results.
+            for a in (result if isinstance(result, tuple) else (result,)):
+                if isinstance(a, np.ndarray):
+                    a.setflags(write=False)
+            cache[key] = result
         return cache[key]
     return wrapper
 
